@@ -41,7 +41,7 @@ def obligations(tier):
                   desc="ge25519_is_on_main_subgroup(P) = 1 <=> L*P is the neutral element, for every representation of L*P with X != 0, (0:Z:Z) or (0:-Z:Z); ge25519_mul_l cut (== L*P: E2 multiples mode)",
                   bounds="all field-element byte strings (incl. non-canonical), all Z != 0"))
     for part, nm in ((0, "scalar-ops"), (1, "point-validate-add-sub"), (3, "random")):
-        obs.append(Ob("core-" + nm, "C07/core.c", units=CORE, stubs=STUBS, defs={"PART": part}, unwind=70, timeout=900, family="core-ed25519-drivers",
+        obs.append(Ob("core-" + nm, "C07/core.c", units=CORE, stubs=STUBS, defs={"PART": part}, unwind=70, timeout=900, family="core-ed25519-drivers", replay="model",
                       desc="crypto_core_ed25519 driver == spec over abstract group/scalars", bounds="all input bytes"))
     for cl in (1, 0):
         obs.append(Ob("scalarmult-%s" % ("clamp" if cl else "noclamp"), "C07/core.c", units=CORE, stubs=STUBS, defs={"PART": 2, "CLAMP": cl},
